@@ -123,6 +123,60 @@ pub fn exec(ctx: &mut Ctx, op: &str, p: &mut Toks) -> String {
                 None => "err arith".into(),
             }
         }
+        "rnd.mixed" => {
+            // draws from varying intervals and shuffles of varying lengths on ONE generator
+            let seed = p.u64();
+            let k = p.nat();
+            enum Item { G(f32, f32), S(usize) }
+            let mut items = Vec::new();
+            for _ in 0..k {
+                match p.tok() {
+                    "g" => { let lo = p.flt(); let hi = p.flt(); items.push(Item::G(lo, hi)); }
+                    _ => { let n = p.nat(); items.push(Item::S(n)); }
+                }
+            }
+            let run = || try_run(|| {
+                let mut g = Generator::create(seed);
+                let mut out: Vec<String> = Vec::new();
+                let mut ok_range = true;
+                let mut ok_perm = true;
+                let mut steps = 0usize;
+                for it in items.iter() {
+                    match it {
+                        Item::G(lo, hi) => {
+                            let v = g.generate(*lo, *hi);
+                            if !(v >= *lo && v <= *hi) { ok_range = false; }
+                            out.push(rf(v));
+                            steps += 1;
+                        }
+                        Item::S(n) => {
+                            let base: Vec<usize> = (0..*n).collect();
+                            let mut v = base.clone();
+                            g.shuffle(&mut v);
+                            if !is_perm(&v, &base) { ok_perm = false; }
+                            out.push(format!("[{}]", v.iter().map(|x| x.to_string()).collect::<Vec<_>>().join(" ")));
+                            steps += *n;
+                        }
+                    }
+                }
+                (out, ok_range, ok_perm, steps)
+            });
+            let res = run();
+            let again = run();
+            let input = format!("seed {} mixed sequence of {} draws / shuffles on one generator", seed, k);
+            match (&res, &again) {
+                (Some(a), Some(b)) => {
+                    ctx.oracle(a.1, "generate-out-of-range", "generate(min, max) must return a value in [min, max] whatever was drawn before", input.clone(), a.0.join(" "), "every draw in its own interval".into());
+                    ctx.oracle(a.2, "shuffle-not-permutation", "shuffle must return a permutation of its input whatever was drawn before", input.clone(), a.0.join(" "), "permutations".into());
+                    ctx.oracle(a.0 == b.0, "generate-impure", "the sequence must be a pure function of the seed", input, b.0.join(" "), a.0.join(" "));
+                }
+                _ => ctx.oracle(false, "generate-panics", "generate / shuffle must not panic", input, "panic".into(), "values".into()),
+            }
+            match res {
+                Some((out, _, _, steps)) => format!("ok {} {}", state_after(seed, steps), out.join(" ")),
+                None => "err arith".into(),
+            }
+        }
         "rnd.shuffle" => {
             let seed = p.u64();
             let n = p.nat();
